@@ -1,6 +1,6 @@
 """Property -> rules table. Each rule callable: (prog, tier, repo) -> [RuleResult]."""
 from .rules import traversal_instances as TI
-from .rules import gate, lookup_unwrap, heap, witness
+from .rules import gate, lookup_unwrap, heap, witness, incremental
 
 PROPERTIES = {}
 
@@ -9,9 +9,11 @@ def prop(pid, explanation, rules, assumptions=()):
     PROPERTIES[pid] = dict(explanation=explanation, rules=rules, assumptions=list(assumptions))
 
 
-def run_property(prog, pid, tier, repo):
+def run_property(prog, pid, tier, repo, static_only=False):
     out = []
     for r in PROPERTIES[pid]['rules']:
+        if static_only and getattr(r, 'needs_repo_build', False):
+            continue
         out.extend(r(prog, tier, repo))
     return out
 
@@ -84,3 +86,13 @@ prop('C17', COMMON +
      [heap.run_tag, heap.run_dealloc, heap.run_unintern, heap.run_monotone, heap.run_intern,
       witness.run_for(['WHeap'], 'C17: handles cannot be forged and heap internals cannot be touched outside the crate (compile-fail witnesses)')],
      ['the marker marks every live string before the unmarked-module set becomes empty (C11 side, T-gc)'])
+
+prop('C10', COMMON +
+     'From-scratch analysis is build_module_signature + type_check_module per key; the incremental path calls the same '
+     'two functions, so equality reduces to invariants of the three mutators, decided on their MIR: SIG-KEY (the '
+     'signature stored under k is built for k from the module stored under k), UPDATE-ORDER (dep_graph rebuilt from '
+     'parsed_modules after the last source mutation and before recheck; recheck post-dominates entry; parsed_modules and '
+     'global_cx mutated under the same keys), ERRORS-OVERWRITE (recheck re-reports the previous syntax errors before '
+     'overwriting errors[m]). Does not decide that the affected set is large enough (graph semantics).',
+     [incremental.run_sigkey, incremental.run_order, incremental.run_errors],
+     ['affected_set (forward closure of the reverse closure of the dirty set) contains every module whose diagnostics can change'])
